@@ -108,7 +108,7 @@ pub fn c05_instances(tier: Tier) -> Vec<Instance> {
                 i.fail_kinds = if total <= 16 { vec![0, 1, 2, 3] } else { vec![0, 3] };
                 // the clock is an input of the async read (90 s timeout): 30 s steps, never 90 s in a row
                 i.tick_budget = if imp == Impl::Tokio && seq.len() <= 2 { 1 } else { 0 };
-                i.storm_budget = if imp == Impl::Tokio && seq.len() <= 2 { 1 } else { 0 };
+                i.storm_budget = if seq.len() <= 2 { 1 } else { 0 };
                 out.push(i);
             }
         }
@@ -204,6 +204,21 @@ pub fn c06_instances(tier: Tier) -> Vec<Instance> {
                 i.storm_budget = 1;
                 out.push(i);
             }
+        }
+    }
+    // a long session of writes: 100 (quick) / 300 (thorough) packets of mixed sizes on one connection,
+    // every call accepting one byte or everything, one storm of not-ready answers anywhere
+    for c in [true, false] {
+        for imp in [Impl::Blocking, Impl::Tokio] {
+            let n = if tier == Tier::Thorough { 300 } else { 100 };
+            let ps: Vec<Packet> = (0..n).map(|j| pk[[0usize, 1, 3, 0, 2][j % 5]].1.clone()).collect();
+            let mut i = Instance::new(&format!("write-long#{}#{}", if c { "compressed" } else { "uncompressed" }, imp_name(imp)), imp, c, vec![]);
+            i.program = Program::Writes(ps);
+            i.script_writes = true;
+            i.allow_eof = false;
+            i.accept_few = true;
+            i.storm_budget = 1;
+            out.push(i);
         }
     }
     // every kind's B1 packet and the largest frames of every counted kind as a single write followed
@@ -314,6 +329,23 @@ pub fn c07_instances(tier: Tier) -> Vec<Instance> {
         }
         // (c) the caller's own reads and writes dropped around a keep-alive
         out.extend(drop_write_instances(c, "dropw"));
+        // (d) "every history": 300 keep-alives, bare and with other frames between them, delivered as
+        // much at a time as the connection takes or frame by frame
+        for imp in [Impl::Blocking, Impl::Tokio] {
+            for (name, between) in [("bare", vec![]), ("mixed", vec![f_small(c), f_tiny(c, 1, 0), f_tiny(c, 0, 3)])] {
+                let mut frames = vec![];
+                for j in 0..300 {
+                    frames.push(f_keepalive(c));
+                    if !between.is_empty() {
+                        frames.push(between[j % between.len()].clone());
+                    }
+                }
+                let mut i = Instance::new(&format!("kastorm#{cname}#{name}#{}", imp_name(imp)), imp, c, frames);
+                i.chunks = Chunks::Fill(name == "bare");
+                i.allow_eof = false;
+                out.push(i);
+            }
+        }
     }
     out
 }
@@ -391,6 +423,19 @@ pub fn c09_instances(_tier: Tier) -> Vec<Instance> {
                         out.push(i);
                     }
                 }
+            }
+            // 300 version packets on one connection, alternately acceptable and not
+            for verify in [true, false] {
+                let mut frames = vec![];
+                for j in 0..300usize {
+                    frames.push(f_ver(c, if j % 2 == 0 { 9 } else { (j % 250) as u8 + 10 }));
+                    if j % 3 == 0 { frames.push(f_small(c)); }
+                }
+                let mut i = Instance::new(&format!("verstorm#{cname}#verify-{verify}#{}", imp_name(imp)), imp, c, frames);
+                i.verify_version = verify;
+                i.chunks = Chunks::Fill(false);
+                i.allow_eof = false;
+                out.push(i);
             }
             // no other kind is ever rejected by the gate
             for k in &kinds {
